@@ -167,17 +167,18 @@ def handle (_ : Unit) (toks : List Tok) : Unit × String :=
                                  encList (o.mtchs.map encMap), encList (o.log.map encEvent),
                                  encList (o.kept.map encNat),
                                  encList ((canonEdges (o.refEdges.map fun e => ((e.1 : Int), (e.2 : Int)))).map encPair)])
-    | [Tok.str "mcismem", gn, ge, sn, se, mt] => do
-        -- size of a maximum common induced subgraph, and: is `mt` (any order) one of them?
+    | [Tok.str "mcismem", gn, ge, sn, se, mts] => do
+        -- size of a maximum common induced subgraph, and for each map (any order): is it one of them?
         let g ← graphOf gn ge
         let sg ← graphOf sn se
-        let M ← pairsOf mt
+        let Ms ← (← mts.list?).mapM pairsOf
         let P := graphProblem g sg (colourPred g sg)
-        let M' := M.mergeSort fun p q => posIn sg.keys p.1 ≤ posIn sg.keys q.1
         let size := mcisSize g sg
-        let ok := M'.length == size && (M'.map Prod.fst).Pairwise (· ≠ ·) && (M'.map Prod.fst).all (sg.keys.contains ·)
-                    && (isosOn P (M'.map Prod.fst)).contains M'
-        pure (encNat size ++ " " ++ encBool ok)
+        let oks := Ms.map fun M =>
+          let M' := M.mergeSort fun p q => posIn sg.keys p.1 ≤ posIn sg.keys q.1
+          M'.length == size && (M'.map Prod.fst).Pairwise (· ≠ ·) && (M'.map Prod.fst).all (sg.keys.contains ·)
+            && (isosOn P (M'.map Prod.fst)).contains M'
+        pure (encNat size ++ " " ++ encList (oks.map encBool))
     | [Tok.str "connected", bn, be] => do
         let b : Block := { nodes := ← (← bn.list?).mapM atomOf, edges := ← pairsOf be }
         pure (encBool (connectedB b))
